@@ -519,8 +519,15 @@ func (w *inotify) handleEvent(inEvent *unix.InotifyEvent, buf *[65536]byte, offs
 						continue
 					}
 					if strings.HasPrefix(ww.path, ev.renamedFrom) {
+						if len(ww.path) > len(ev.renamedFrom) && ww.path[len(ev.renamedFrom)] != filepath.Separator {
+							// Not below the renamed directory, just a name that
+							// starts the same (sub → sub2).
+							continue
+						}
+						delete(w.watches.path, ww.path)
 						ww.path = strings.Replace(ww.path, ev.renamedFrom, ev.Name, 1)
 						w.watches.wd[k] = ww
+						w.watches.path[ww.path] = k
 					}
 				}
 			}
